@@ -1,3 +1,4 @@
+import Noodles.Props.C19Async
 import Noodles.Props.C19More
 import Noodles.Cram.IndexModel
 import Noodles.Cram.IndexProof
